@@ -217,6 +217,7 @@ def consts(repo):
                                                        int(m3.group(1)) * 10 ** 9))
 
 
+SRC_SPECS = ["telem"]     # translator/specs/telem.json -> Generated/Src_Telem.v (regenerated on every run)
 READY = True
 TECHNIQUE = "Coq proof (refinement of the write/read model to the committed-samples specification) + model/impl correspondence by vm_compute"
 DESIGN_REF = "DESIGN.md §8 C01"
